@@ -110,6 +110,23 @@ def step (line : String) : String :=
       let Q := G2.add (g2of c) (g2of d)
       s!"eq={b2s (P == Q)} enc={b2s (marshalG2 P == marshalG2 Q)}"
     | _, _, _, _ => "bad-op"
+  -- one receiver through a sequence of states: the model's decoders do not look at the receiver
+  | ["seq", g, steps] =>
+    let outs := (steps.splitOn ",").filterMap fun st =>
+      let body := (st.drop 1).toString
+      match st.toList.head?, ofHex body with
+      | some 'd', some b =>
+        some (match g with
+          | "g1" => showDec marshalG1 (unmarshalG1 b)
+          | "g2" => showDec marshalG2 (unmarshalG2 b)
+          | _ => showDec marshalGT (unmarshalGT b))
+      | some 'f', some b =>
+        some (match g with
+          | "g1" => let (n, o) := unmarshalFrom 64 unmarshalG1 b; s!"n={n} {showDec marshalG1 o}"
+          | "g2" => let (n, o) := unmarshalFromG2 b; s!"n={n} {showDec marshalG2 o}"
+          | _ => let (n, o) := unmarshalFrom 384 unmarshalGT b; s!"n={n} {showDec marshalGT o}")
+      | _, _ => none
+    String.intercalate ";" outs
   -- GT elements are pairing values e(aG1,bG2) = gT^(ab): decided in the dlog representation
   | ["gteq", a, b, c, d] => match a.toNat?, b.toNat?, c.toNat?, d.toNat? with
     | some a, some b, some c, some d =>
